@@ -47,7 +47,9 @@ def _cases(draw, max_size=10):
     if draw(st.integers(0, 9)) == 0:
         # scores held in a narrow signed integer type, reaching the ends of its range (the smallest value has
         # no negative in that type)
-        dt = draw(st.sampled_from(["int8", "int16", "int32"]))
+        # (int32 is left out: at |score| ~ 2e9 an interpolated threshold 1e-8 of a gap away from a score rounds onto
+        # it, which is outside this check's magnitude assumption |score| <= 1e6 - found by the thorough tier)
+        dt = draw(st.sampled_from(["int8", "int16"]))
         lo, hi = {"int8": (-128, 127), "int16": (-32768, 32767), "int32": (-2**31, 2**31 - 1)}[dt]
         near = st.one_of(st.integers(lo, lo + 6), st.integers(hi - 6, hi), st.integers(-3, 3))
         n, m = draw(st.integers(0, max_size)), draw(st.integers(0, max_size))
@@ -364,4 +366,4 @@ PROP = Prop(
                  "tie-free dichotomy and are skipped, counted under label near-tie-skipped"],
 )
 
-RULE_EXTRA = ('score containers float64 / float32 / lists / mixed-dtype classes; fine score scale 1e-6. Scores held in int8/int16/int32 at both ends of the type, byte-swapped arrays; large_n also with disjoint class ranges (either way round) and with one array object as both classes.')
+RULE_EXTRA = ('score containers float64 / float32 / lists / mixed-dtype classes; fine score scale 1e-6. Scores held in int8/int16 at both ends of the type, byte-swapped arrays; large_n also with disjoint class ranges (either way round) and with one array object as both classes.')
